@@ -14,6 +14,10 @@ INF = ('np.inf', 'numpy.inf', "float('inf')", 'math.inf', 'inf', 'self.dtype_max
 FORMULA = {'dt_cfl': 'H / F', 'dt_force': 'sqrt(H / sqrt(F))', 'dt_visc': 'H / F'}
 
 
+def compact(n):
+    return M.unparse(n).replace(' ', '')
+
+
 def U(n):
     return M.unparse(n)
 
@@ -245,125 +249,281 @@ def rule_provenance(chk, tree):
     elif U(rv) not in ('factors', 'tuple(factors)'):
         chk.undecided('criterion-provenance', 'return-order', node=ret[0], file=INT, func='_get_dt_adapt_factors',
                       detail='unknown return shape %s' % U(rv))
-    # 2. compute_time_step: i-th unpacked factor feeds the i-th formula
-    un = [a for a in ast.walk(cts) if isinstance(a, ast.Assign) and isinstance(a.value, ast.Call)
-          and M.call_name(a.value) == 'self._get_dt_adapt_factors' and isinstance(a.targets[0], ast.Tuple)]
-    if not un:
-        raise AnalysisError('compute_time_step no longer unpacks _get_dt_adapt_factors()')
-    fvars = [U(e) for e in un[0].targets[0].elts]
-    hvar = None
-    for a in ast.walk(cts):
-        if isinstance(a, ast.Assign) and U(a.value) == 'self.h_minimum':
-            hvar = U(a.targets[0])
-    if hvar is None:
-        raise AnalysisError('compute_time_step no longer reads self.h_minimum')
-    crit_vars = []
-    for crit, fv in zip(order, fvars):
-        want = U(ast.parse(FORMULA[crit].replace('H', hvar).replace('F', fv), mode='eval').body)
-        found = None
-        for i in ast.walk(cts):
-            if isinstance(i, ast.If) and fv in [x.id for x in ast.walk(i.test) if isinstance(x, ast.Name)]:
-                for b in i.body:
-                    if isinstance(b, ast.Assign):
-                        found = (i, b)
-        if found is None:
-            chk.violated('criterion-provenance', 'formula:' + crit, node=cts, file=INT, func='compute_time_step',
-                         detail='no guarded step estimate for criterion %s (factor %s)' % (crit, fv))
+    # 2.-4. compute_time_step and _get_explicit_dt_adapt are decided per feasible path through the methods (private helpers inlined, path-local names substituted), and
+    #       the returned step is compared with cfl * min(<formula of every criterion whose factor is positive>) as algebra (value numbering), not as text
+    rule_step_value(chk, tree, order)
+
+
+def _is_inf(e):
+    return compact(e) in [x.replace(' ', '') for x in INF]
+
+
+def rule_step_value(chk, tree, order):
+    from verif_static import paths as PT, symb as S
+    cls_raw = M.find_class(tree, 'Integrator')
+    PINNED = ('_get_dt_adapt_factors', '_get_explicit_dt_adapt', '_my_max')
+    cls = M.inlined_class(cls_raw, keep=set(PINNED) | set(n_ for n_ in M.methods(cls_raw) if not n_.startswith('_')))
+    cts = M.find_func(cls, 'compute_time_step')
+    cfl_name = M.arg_names(cts)[2] if len(M.arg_names(cts)) > 2 else 'cfl'
+    pths = PT.enumerate_paths(M.docstring_stripped(cts.body))
+    chk.unit('paths through compute_time_step', len(pths))
+
+    def to_poly(ctx, ev, e):
+        class R(ast.NodeTransformer):
+            def visit_Call(self, n):
+                self.generic_visit(n)
+                if (M.call_name(n) or '') in ('np.sqrt', 'numpy.sqrt', 'math.sqrt'):
+                    return ast.Call(func=ast.Name(id='sqrt', ctx=ast.Load()), args=n.args, keywords=[])
+                return n
+        import copy
+        return ev.ev(R().visit(copy.deepcopy(e)))
+    bad = {}
+    n_over = n_crit = n_none = 0
+    for p_ in pths:
+        ret = p_[-1]
+        if ret.kind != 'return':
+            bad.setdefault('every-path-returns', 'a path falls off the end')
             continue
-        i, b = found
-        gok = N.same(i.test, '%s > 0' % fv)
-        got = U(b.value).replace('np.sqrt', 'sqrt').replace('numpy.sqrt', 'sqrt').replace('math.sqrt', 'sqrt')
-        chk.decide(got == want, 'criterion-provenance', 'formula:' + crit, node=b, file=INT, func='compute_time_step',
-                   detail_bad='criterion %s uses %s, documented formula is %s' % (crit, got, want), detail_ok=want)
-        chk.decide(gok, 'criterion-provenance', 'skip-unless-positive:' + crit, node=i, file=INT, func='compute_time_step',
-                   detail_bad='criterion %s applied under %s (must be skipped unless its factor is positive)' % (crit, U(i.test)),
-                   detail_ok='applied only if %s > 0' % fv)
-        crit_vars.append(U(b.targets[0]))
-    # 3. min over the three, scaled by cfl, None when nothing applies
-    mins = [a for a in ast.walk(cts) if isinstance(a, ast.Assign) and isinstance(a.value, ast.Call)
-            and M.call_name(a.value) == 'min' and set(U(x) for x in a.value.args) == set(crit_vars) and len(crit_vars) == 3]
-    chk.decide(bool(mins), 'criterion-provenance', 'min-of-all-criteria', node=cts, file=INT, func='compute_time_step',
-               detail_bad='the proposed step is not min(%s)' % ', '.join(crit_vars), detail_ok='min(%s)' % ', '.join(crit_vars))
-    # criteria default to +inf so that absent ones never win
-    dflt = [a for a in ast.walk(cts) if isinstance(a, ast.Assign) and set(U(t) for t in a.targets) == set(crit_vars)]
-    chk.decide(bool(dflt) and U(dflt[0].value) in INF, 'criterion-provenance', 'absent-criteria-are-inf', node=cts, file=INT,
-               func='compute_time_step', detail_bad='criteria not defaulted to +inf', detail_ok='defaults +inf')
-    if mins:
-        mv = U(mins[0].targets[0])
-        rets = [r for r in ast.walk(cts) if isinstance(r, ast.Return) and r.value is not None and mv in U(r.value)]
-        ok = bool(rets) and all(U(r.value).replace(' ', '') in ('cfl*%s' % mv, '%s*cfl' % mv) for r in rets)
-        chk.decide(ok, 'criterion-provenance', 'scaled-by-cfl', node=rets[0] if rets else cts, file=INT, func='compute_time_step',
-                   detail_bad='result is %s, documented cfl*min(...)' % ([U(r.value) for r in rets]), detail_ok='cfl*' + mv)
-        none_guard = [i for i in ast.walk(cts) if isinstance(i, ast.If) and mv in U(i.test)
-                      and any(isinstance(b, ast.Return) and U(b.value) == 'None' for b in i.body)]
-        ok = bool(none_guard) and N.same(none_guard[0].test, 'np.isinf(%s) or %s <= 0' % (mv, mv), 'numpy.isinf(%s) or %s <= 0' % (mv, mv), 'math.isinf(%s) or %s <= 0' % (mv, mv))
-        chk.decide(ok, 'criterion-provenance', 'none-when-no-criterion', node=cts, file=INT, func='compute_time_step',
-                   detail_bad='None is not returned when no criterion applies (min is inf or <= 0)', detail_ok='returns None')
-    # 4. dt_adapt override dominates everything
-    g = C.build_cfg(cts)
-    ov = [n for n in ast.walk(cts) if isinstance(n, ast.If) and 'is not None' in U(n.test)
-          and any(isinstance(b, ast.Return) for b in n.body)]
-    first = [a for a in ast.walk(cts) if isinstance(a, ast.Assign) and M.call_name(a.value) == 'self._get_explicit_dt_adapt'] \
-        if True else []
-    ok = bool(ov) and bool(first) and U(ov[0].body[0].value) == U(first[0].targets[0]) and \
-        g.dominates(g.node_of(ov[0]), g.node_of(un[0]))
-    chk.decide(ok, 'dt-adapt-override', 'override-first', node=cts, file=INT, func='compute_time_step',
-               detail_bad='an explicit dt_adapt does not take precedence', detail_ok='returned before the criteria are consulted')
+        rv = PT.resolve(ret.node.value, ret.env) if ret.node.value is not None else ast.Constant(value=None)
+        cl = PT.calls_on(p_)
+        ex = [i for i, c, cal, env in cl if cal == 'self._get_explicit_dt_adapt']
+        fa = [i for i, c, cal, env in cl if cal == 'self._get_dt_adapt_factors']
+        over_t = PT.took(p_, True, 'self._get_explicit_dt_adapt() is not None')
+        over_f = PT.took(p_, False, 'self._get_explicit_dt_adapt() is not None')
+        if over_t is not None:
+            n_over += 1
+            if compact(rv) != 'self._get_explicit_dt_adapt()' or (fa and fa[0] < over_t):
+                bad.setdefault('override-first', 'with an explicit dt_adapt the path returns %s' % U(rv))
+            continue
+        if over_f is None or not ex:
+            bad.setdefault('override-first', 'a path consults the criteria without first asking for an explicit dt_adapt')
+            continue
+        # factor names, positionally
+        un = [e for e in p_ if e.kind == 'stmt' and isinstance(e.node, ast.Assign) and isinstance(e.node.targets[0], ast.Tuple) and isinstance(e.node.value, ast.Call)
+              and PT.callee(e.node.value, e.env) == 'self._get_dt_adapt_factors']
+        if len(un) != 1 or len(un[0].node.targets[0].elts) != 3:
+            bad.setdefault('formula', 'the three factors of _get_dt_adapt_factors() are not unpacked once on a path')
+            continue
+        fvars = [U(x) for x in un[0].node.targets[0].elts]
+        pos = []
+        for fv in fvars:
+            t_ = PT.took(p_, True, '%s > 0' % fv)
+            f_ = PT.took(p_, False, '%s > 0' % fv)
+            pos.append(True if t_ is not None else (False if f_ is not None else None))
+        if isinstance(rv, ast.Constant) and rv.value is None:
+            n_none += 1
+            # None is returned exactly when no criterion applies or the minimum is not positive: the path decided `isinf(m) or m <= 0` that way
+            dec = [e for e in p_ if e.kind == 'cond' and 'isinf' in U(e.node)]
+            if not dec:
+                bad.setdefault('none-when-no-criterion', 'a path returns None without testing the minimum for inf / non-positive')
+            continue
+        n_crit += 1
+        # a step is only returned after the minimum was found finite AND positive
+        def refuted(e, what):
+            parts = e.node.values if isinstance(e.node, ast.BoolOp) and isinstance(e.node.op, ast.Or) else [e.node]
+            return e.kind == 'cond' and not e.truth and any(what(x) for x in parts)
+        fin = any(refuted(e, lambda x: isinstance(x, ast.Call) and (M.call_name(x) or '').endswith('isinf')) for e in p_)
+        posv = any(refuted(e, lambda x: isinstance(x, ast.Compare) and any(N.same(x, '%s <= 0' % nm_) for nm_ in [y.id for y in ast.walk(x) if isinstance(y, ast.Name)])) for e in p_) or \
+            any(e.kind == 'cond' and e.truth and isinstance(e.node, ast.Compare) and any(N.same(e.node, '%s > 0' % nm_) for nm_ in [y.id for y in ast.walk(e.node) if isinstance(y, ast.Name)]
+                                                                                   if nm_ not in fvars) for e in p_)
+        if not (fin and posv):
+            bad.setdefault('none-when-no-criterion', 'a step is returned on a path that has not found the minimum both finite and positive (None must be returned when it is inf or <= 0)')
+        if None in pos:
+            bad.setdefault('skip-unless-positive', 'a path applies the criteria without testing factor %s > 0' % fvars[pos.index(None)])
+            continue
+        # expected terms
+        ctx = S.Ctx(seconds=20)
+        ctx.positive.add(cfl_name)
+        ctx.positive.add('self.h_minimum')
+        for fv in fvars:
+            ctx.positive.add(fv)
+        noargs = ast.arguments(posonlyargs=[], args=[], kwonlyargs=[], kw_defaults=[], defaults=[])
+        ev = S.Evaluator(ctx, ast.FunctionDef(name='f', args=noargs, body=[ast.Pass()], decorator_list=[]))
+        try:
+            want = []
+            for crit, fv, on in zip(order, fvars, pos):
+                if on:
+                    want.append((crit, to_poly(ctx, ev, ast.parse('%s * (%s)' % (cfl_name, FORMULA[crit].replace('H', 'self.h_minimum').replace('F', fv)), mode='eval').body)))
+            # returned value: k * min(args) or min(args)
+            k_, mn = None, rv
+            if isinstance(rv, ast.BinOp) and isinstance(rv.op, ast.Mult):
+                for a_, b_ in ((rv.left, rv.right), (rv.right, rv.left)):
+                    if isinstance(b_, ast.Call) and M.call_name(b_) == 'min':
+                        k_, mn = a_, b_
+            if not (isinstance(mn, ast.Call) and M.call_name(mn) == 'min'):
+                bad.setdefault('min-of-all-criteria', 'the returned step %s is not (a multiple of) the minimum over the criteria' % U(rv))
+                continue
+            terms = [a_ for a_ in mn.args if not _is_inf(a_)]
+            got = [to_poly(ctx, ev, ast.BinOp(left=k_, op=ast.Mult(), right=a_) if k_ is not None else a_) for a_ in terms]
+            if len(got) != len(want):
+                bad.setdefault('min-of-all-criteria', 'with factors positive = %s the step is %s: %d finite terms for %d applicable criteria' % (pos, U(rv), len(got), len(want)))
+                continue
+            left = list(want)
+            for g_ in got:
+                hit = [w_ for w_ in left if ctx.prove_zero(g_ - w_[1])[0]]
+                if not hit:
+                    bad.setdefault('formula', 'with factors positive = %s the step %s has a term that is none of cfl*%s' % (pos, U(rv), [FORMULA[c_] for c_, w_ in left]))
+                    break
+                left.remove(hit[0])
+        except (S.Unsupported, S.Budget) as e:
+            chk.undecided('criterion-provenance', 'formula', node=cts, file=INT, func='compute_time_step', detail='returned step not expressible: %s' % e)
+            return
+    for inst, text in (('every-path-returns', 'every path returns'), ('override-first', 'an explicit dt_adapt is returned before the criteria are consulted'),
+                       ('skip-unless-positive', 'each criterion applies only when its factor is positive'), ('min-of-all-criteria', 'cfl * min over the applicable criteria'),
+                       ('formula', 'cfl*h/F_cfl, cfl*sqrt(h/sqrt(F_force)), cfl*h/F_visc (value numbering)'), ('none-when-no-criterion', 'None when nothing applies')):
+        rule = 'dt-adapt-override' if inst == 'override-first' else 'criterion-provenance'
+        chk.decide(inst not in bad, rule, inst, node=cts, file=INT, func='compute_time_step', detail_bad=bad.get(inst, ''), detail_ok=text)
+    chk.decide(n_over >= 1 and n_crit >= 7 and n_none >= 1, 'criterion-provenance', 'path-coverage', node=cts, file=INT, func='compute_time_step',
+               detail_bad='expected override, None and all 7 non-empty sign patterns of the factors among the paths: %d / %d / %d' % (n_over, n_none, n_crit),
+               detail_ok='%d override, %d None, %d criterion paths' % (n_over, n_none, n_crit))
+    # h_minimum is refreshed on every criterion path unless fixed_h
+    # _get_explicit_dt_adapt
     ex = M.find_func(cls, '_get_explicit_dt_adapt')
-    src = U(ex)
-    pos = [i for i in ast.walk(ex) if isinstance(i, ast.If) and N.same(i.test, 'dt_min > 0')]
-    ok = bool(pos) and isinstance(pos[0].body[0], ast.Return) and U(pos[0].body[0].value) == 'dt_min' and \
-        any(isinstance(b, ast.Return) and U(b.value) == 'None' for b in pos[0].orelse)
-    chk.decide(ok, 'dt-adapt-override', 'positive-or-none', node=ex, file=INT, func='_get_explicit_dt_adapt',
-               detail_bad='non-positive dt_adapt does not fall through to the criteria', detail_ok='dt_min if > 0 else None')
-    # empty arrays contribute +inf; arrays are filtered by having the property; real particles only
-    empt = [i for i in ast.walk(ex) if isinstance(i, ast.If) and N.same(i.test, 'pa.get_number_of_particles() > 0', 'pa.gpu.get_number_of_particles() > 0')]
-    ok = len(empt) >= 1 and all(any(isinstance(b, ast.Assign) and U(b.value) in INF for b in i.orelse) for i in empt)
-    chk.decide(ok, 'dt-adapt-override', 'empty-arrays-are-inf', node=ex, file=INT, func='_get_explicit_dt_adapt',
-               detail_bad='an empty array does not contribute +inf to the minimum', detail_ok='+inf for empty arrays')
-    hasprop = [i for i in ast.walk(ex) if isinstance(i, ast.If) and U(i.test) == "'dt_adapt' in pa.properties"]
-    chk.decide(bool(hasprop), 'dt-adapt-override', 'only-arrays-with-property', node=ex, file=INT, func='_get_explicit_dt_adapt',
-               detail_bad='arrays lacking dt_adapt are not skipped', detail_ok='filtered by membership')
-    mn = [c for c in M.calls(ex) if M.call_name(c) in ('np.min', 'numpy.min', 'min') and c.args and U(c.args[0]) == 'pa.dt_adapt']
-    chk.decide(bool(mn), 'dt-adapt-override', 'min-over-real-particles', node=ex, file=INT, func='_get_explicit_dt_adapt',
-               detail_bad='dt_adapt is not reduced with min over pa.dt_adapt (the real-particle view)',
-               detail_ok='np.min(pa.dt_adapt): attribute access yields real particles only')
+    epaths = PT.enumerate_paths(M.docstring_stripped(ex.body))
+    loops = []
+    badx = {}
+    accs = set()
+    for p_ in epaths:
+        r_ = p_[-1]
+        if r_.kind == 'return' and isinstance(r_.node.value, ast.Name):
+            accs.add(r_.node.value.id)
+    acc = sorted(accs)[0] if len(accs) == 1 else None
+    if acc is not None:
+        loops = [l for l in ast.walk(ex) if isinstance(l, ast.For) and any(isinstance(a, ast.Assign) and U(a.targets[0]) == acc for a in ast.walk(l))]
+    if acc is None or not loops:
+        chk.undecided('dt-adapt-override', 'shape', node=ex, file=INT, func='_get_explicit_dt_adapt', detail='cannot identify the running minimum (returned names %s)' % sorted(accs))
+    else:
+        npos = 0
+        for p_ in epaths:
+            r_ = p_[-1]
+            if r_.kind != 'return':
+                badx.setdefault('positive-or-none', 'a path falls off the end')
+                continue
+            t_ = PT.took(p_, True, '%s > 0' % acc)
+            f_ = PT.took(p_, False, '%s > 0' % acc)
+            isn = isinstance(r_.node.value, ast.Constant) and r_.node.value.value is None or r_.node.value is None
+            if t_ is not None:
+                npos += 1
+                if isn or not (isinstance(r_.node.value, ast.Name) and r_.node.value.id == acc):
+                    badx.setdefault('positive-or-none', 'with a positive minimum the path does not return it')
+            elif not isn:
+                badx.setdefault('positive-or-none', 'a path returns %s without the minimum being tested positive' % U(r_.node.value))
+        if npos == 0:
+            badx.setdefault('positive-or-none', 'no path returns a positive minimum')
+        lp = loops[0]
+        av = U(lp.target)
+        # the arrays looked at are the evaluator's current ones, not a list remembered from an earlier call
+        ldefs = N.local_defs([ex])
+        it_res = compact(N.inline(lp.iter, ldefs))
+        if it_res != 'self.acceleration_evals[0].particle_arrays':
+            badx.setdefault('only-arrays-with-property', 'the minimum is taken over `%s`, not over the current particle arrays of the evaluator (a remembered selection misses arrays that '
+                                                         'were empty, or lacked the property, when it was made)' % it_res)
+        seeds_ = [a for a in ast.walk(ex) if isinstance(a, ast.Assign) and U(a.targets[0]) == acc and _is_inf(a.value)]
+        if not seeds_:
+            badx.setdefault('empty-arrays-are-inf', 'the running minimum does not start at +inf')
+        nupd = 0
+        for q_ in PT.enumerate_paths(list(lp.body)):
+            has = PT.took(q_, True, "'dt_adapt' in %s.properties" % av)
+            ups = [(i, v) for i, tg, v in PT.stores_on(q_) if tg == acc]
+            if has is None:
+                if ups:
+                    badx.setdefault('only-arrays-with-property', 'an array without dt_adapt changes the minimum')
+                continue
+            if len(ups) != 1 or not (isinstance(ups[0][1], ast.Call) and M.call_name(ups[0][1]) == 'min' and len(ups[0][1].args) == 2 and acc in [U(x) for x in ups[0][1].args]):
+                badx.setdefault('min-over-real-particles', 'an array with dt_adapt does not fold its minimum into %s with min(%s, .)' % (acc, acc))
+                continue
+            nupd += 1
+            val = [x for x in ups[0][1].args if U(x) != acc][0]
+            gpu = PT.took(q_, True, '%s.gpu is not None' % av) is not None
+            cnt = '%s.gpu.get_number_of_particles() > 0' % av if gpu else '%s.get_number_of_particles() > 0' % av
+            nonempty = PT.took(q_, True, cnt)
+            empty = PT.took(q_, False, cnt)
+            if nonempty is not None:
+                want_v = ('minimum(%s.gpu.dt_adapt)' % av,) if gpu else ('np.min(%s.dt_adapt)' % av, 'numpy.min(%s.dt_adapt)' % av, 'min(%s.dt_adapt)' % av, '%s.dt_adapt.min()' % av)
+                if compact(val) not in [w_.replace(' ', '') for w_ in want_v]:
+                    badx.setdefault('min-over-real-particles', 'a non-empty array contributes %s, not the minimum of its dt_adapt over the real particles' % U(val))
+            elif empty is not None:
+                if not _is_inf(val):
+                    badx.setdefault('empty-arrays-are-inf', 'an empty array contributes %s, not +inf' % U(val))
+            else:
+                badx.setdefault('empty-arrays-are-inf', 'the array is reduced without testing that it has particles')
+        if nupd == 0:
+            badx.setdefault('min-over-real-particles', 'no path folds an array into the minimum')
+        for inst, text in (('positive-or-none', 'dt_min if > 0 else None'), ('empty-arrays-are-inf', '+inf for empty arrays'), ('only-arrays-with-property', 'filtered by membership'),
+                           ('min-over-real-particles', 'np.min(pa.dt_adapt): attribute access yields real particles only')):
+            chk.decide(inst not in badx, 'dt-adapt-override', inst, node=ex, file=INT, func='_get_explicit_dt_adapt', detail_bad=badx.get(inst, ''), detail_ok=text)
 
 
 def rule_fallback(chk):
+    """Solver._compute_timestep, per feasible path with path-local names substituted: a non-adaptive run uses the undamped fixed step; an adaptive serial run returns what the
+    integrator proposes - called with (undamped step, cfl) - or the undamped step when that is None; in parallel None becomes a large number before the global reduction"""
+    from verif_static import paths as PT
     t = M.py(SOL)
-    fn = M.find_method(t, 'Solver', '_compute_timestep')
-    g = C.build_cfg(fn)
-    call = [a for a in ast.walk(fn) if isinstance(a, ast.Assign) and isinstance(a.value, ast.Call)
-            and M.call_name(a.value) == 'self.integrator.compute_time_step']
-    if not call:
+    scls_raw = M.find_class(t, 'Solver')
+    VOC = ('_get_timestep', '_dump_output_if_needed', '_compute_timestep', '_damp_timestep', '_get_solver_data', '_get_undamped_timestep', '_post_stage_callback')
+    scls = M.inlined_class(scls_raw, keep=set(VOC) | set(n_ for n_ in M.methods(scls_raw) if not n_.startswith('_')))
+    fn = M.find_func(scls, '_compute_timestep')
+    CALL = 'self.integrator.compute_time_step(self._get_undamped_timestep(), self.cfl)'
+    UND = 'self._get_undamped_timestep()'
+    bad = {}
+    seen = set()
+    pths = PT.enumerate_paths(M.docstring_stripped(fn.body))
+    if not any(cal == 'self.integrator.compute_time_step' for p_ in pths for i, c, cal, env in PT.calls_on(p_)):
         raise AnalysisError('Solver._compute_timestep no longer calls integrator.compute_time_step')
-    dtv = U(call[0].targets[0])
-    a0 = call[0].value.args
-    und = [a for a in ast.walk(fn) if isinstance(a, ast.Assign) and M.call_name(a.value) == 'self._get_undamped_timestep']
-    uv = U(und[0].targets[0]) if und else None
-    chk.decide(uv is not None and len(a0) == 2 and U(a0[0]) == uv and U(a0[1]) == 'self.cfl', 'fallback-to-fixed-step',
-               'arguments', node=call[0], file=SOL, func='_compute_timestep',
-               detail_bad='compute_time_step is not called with (undamped dt, self.cfl)', detail_ok='(undamped_dt, self.cfl)')
-    # serial path: None -> undamped fixed step
-    fb = [i for i in ast.walk(fn) if isinstance(i, ast.If) and U(i.test) == '%s is None' % dtv]
-    serial = [i for i in fb if any(isinstance(b, ast.Assign) and U(b.value) == uv for b in i.body)]
-    chk.decide(bool(serial), 'fallback-to-fixed-step', 'none-keeps-fixed-step', node=fn, file=SOL, func='_compute_timestep',
-               detail_bad='when no criterion applies the undamped fixed step is not kept', detail_ok='dt = undamped_dt')
-    # every return returns a value that was checked for None on the adaptive path
-    rets = [r for r in ast.walk(fn) if isinstance(r, ast.Return)]
-    ok = all(U(r.value) == dtv for r in rets)
-    nonadapt = [i for i in ast.walk(fn) if isinstance(i, ast.If) and U(i.test) == 'self.adaptive_timestep']
-    ok2 = bool(nonadapt) and any(isinstance(b, ast.Assign) and U(b.value) == uv for b in nonadapt[0].orelse)
-    chk.decide(ok and ok2, 'fallback-to-fixed-step', 'non-adaptive-uses-fixed-step', node=fn, file=SOL, func='_compute_timestep',
-               detail_bad='non-adaptive runs do not use the undamped fixed step', detail_ok='else: dt = undamped_dt')
-    if fb and call:
-        cn = g.node_of(call[0])
-        retn = [g.node_of(r) for r in rets]
-        guards = [g.node_of(i) for i in fb]
-        ok = all(g.must_pass(cn, r, guards) for r in retn if r is not None)
-        chk.decide(ok, 'fallback-to-fixed-step', 'none-never-returned', node=fn, file=SOL, func='_compute_timestep',
-                   detail_bad='a path returns the integrator result without the None test', detail_ok='every path tests for None')
+    for p_ in pths:
+        r_ = p_[-1]
+        if r_.kind != 'return' or r_.node.value is None:
+            bad.setdefault('none-never-returned', 'a path does not return a step')
+            continue
+        rv = compact(PT.resolve(r_.node.value, r_.env))
+        adaptive = PT.took(p_, True, 'self.adaptive_timestep')
+        nonad = PT.took(p_, False, 'self.adaptive_timestep')
+        cl = [(i, c, env) for i, c, cal, env in PT.calls_on(p_) if cal == 'self.integrator.compute_time_step']
+        if nonad is not None:
+            seen.add('nonadaptive')
+            if rv != UND or cl:
+                bad.setdefault('non-adaptive-uses-fixed-step', 'a non-adaptive path returns %s' % rv)
+            continue
+        if adaptive is None:
+            bad.setdefault('non-adaptive-uses-fixed-step', 'a path does not look at self.adaptive_timestep')
+            continue
+        if len(cl) != 1 or [compact(PT.resolve(a_, cl[0][2])) for a_ in cl[0][1].args] != [UND, 'self.cfl']:
+            bad.setdefault('arguments', 'compute_time_step is not called once with (undamped dt, self.cfl) on an adaptive path')
+            continue
+        par = PT.took(p_, True, 'self.in_parallel')
+        isnone = PT.took(p_, True, CALL.replace(' ', '') + ' is None', CALL + ' is None')
+        notnone = PT.took(p_, False, CALL + ' is None')
+        if isnone is None and notnone is None:
+            bad.setdefault('none-never-returned', 'an adaptive path returns %s without testing the integrator\'s answer for None' % rv)
+            continue
+        if par is None:
+            if isnone is not None:
+                seen.add('serial-none')
+                if rv != UND:
+                    bad.setdefault('none-keeps-fixed-step', 'when no criterion applies the path returns %s, not the undamped fixed step' % rv)
+            else:
+                seen.add('serial-value')
+                if rv != CALL.replace(' ', ''):
+                    bad.setdefault('none-never-returned', 'the proposed step is replaced by %s' % rv)
+        else:
+            seen.add('parallel')
+            if not rv.startswith('self.pm.update_time_steps('):
+                bad.setdefault('none-never-returned', 'the parallel path does not reduce the step over the processes: %s' % rv)
+    for need in ('nonadaptive', 'serial-none', 'serial-value'):
+        if need not in seen:
+            bad.setdefault({'nonadaptive': 'non-adaptive-uses-fixed-step', 'serial-none': 'none-keeps-fixed-step', 'serial-value': 'none-never-returned'}[need], 'no %s path found' % need)
+    for inst, text in (('arguments', '(undamped_dt, self.cfl)'), ('none-keeps-fixed-step', 'dt = undamped_dt'), ('non-adaptive-uses-fixed-step', 'else: dt = undamped_dt'),
+                       ('none-never-returned', 'every path tests for None')):
+        chk.decide(inst not in bad, 'fallback-to-fixed-step', inst, node=fn, file=SOL, func='_compute_timestep', detail_bad=bad.get(inst, ''), detail_ok=text)
+    # the first step, too, is derived from criteria that have been evaluated: the initial acceleration precedes the first _get_timestep()
+    sv = M.find_func(scls, 'solve')
+    g = C.build_cfg(sv)
+    ia = [n.id for n in g.nodes if n.ast is not None and isinstance(n.ast, ast.Expr) and (M.call_name(n.ast.value) or '').endswith('integrator.initial_acceleration')]
+    gts = [n.id for n in g.nodes if n.ast is not None and isinstance(n.ast, ast.Assign) and M.call_name(n.ast.value) == 'self._get_timestep']
+    ok = bool(ia) and bool(gts) and all(any(g.dominates(a_, x) for a_ in ia) for x in gts)
+    chk.decide(ok, 'fallback-to-fixed-step', 'criteria-evaluated-before-the-first-step', node=sv, file=SOL, func='Solver.solve',
+               detail_bad='a step is asked for (self._get_timestep()) before integrator.initial_acceleration() has evaluated the accelerations: the criterion properties are still '
+                          'zero, so the first step falls back to the fixed dt however small the stable step is', detail_ok='initial_acceleration() dominates every _get_timestep()')
 
 
 def rule_consulted_every_step(chk):
